@@ -334,6 +334,73 @@ harmonic {
 ]
 
 
+DZ = """colvar {
+  name x
+  width 0.5
+  distanceZ {
+    main {
+      %s
+    }
+    ref {
+      dummyAtom (0,0,0)
+    }
+    axis (0,0,1)
+  }
+}
+harmonic {
+  colvars x
+  centers %s
+  forceConstant 4.0
+}
+"""
+DP = """colvar {
+  name p
+  distancePairs {
+    group1 {
+      atomNumbers 1 2
+    }
+    group2 {
+      atomNumbers 3 4
+    }
+  }
+}
+linear {
+  colvars p
+  centers %s
+  forceConstant 0.5
+}
+"""
+GC = """colvar {
+  name g
+  groupCoord {
+    group1 {
+      %s
+    }
+    group2 {
+      atomNumbers 2
+    }
+  }
+}
+"""
+# whole-module witnesses of the repaired defects: (signature, natoms, configuration, must be accepted?, what it shows)
+MODULE_WITNESSES = [
+    ("ok", 4, DZ % ("atomNumbers 1", "0.25"), True, "reference"),
+    ("ok", 4, DP % "(0.1, 0.2, 0.3, 0.4)", True, "reference (vector variable)"),
+    ("ok", 4, GC % "atomNumbers 1", True, "reference (groupCoord)"),
+    ("ok", 4, DZ % ("atomNumbers 1\n      atomNumbersRange 2-3", "0.25"), True, "reference (atomNumbersRange)"),
+    ("strict:scalar:text-after-number", 4, (DZ % ("atomNumbers 1", "0.25")).replace("width 0.5", "width 0.5abc"), False,
+     "`width 0.5abc` is accepted"),
+    ("strict:scalar:text-after-number", 4, (DZ % ("atomNumbers 1", "0.25")).replace("forceConstant 4.0", "forceConstant 4.0 abc"), False,
+     "`forceConstant 4.0 abc` is accepted"),
+    ("strict:vector:surplus-entries-dropped", 4, DZ % ("atomNumbers 1", "0.25 0.5"), False, "`centers 0.25 0.5` for one variable is accepted"),
+    ("strict:atoms:unparsable-atom-number", 4, DZ % ("atomNumbers 1 x", "0.25"), False, "`atomNumbers 1 x` is accepted"),
+    ("strict:atoms:unparsable-atom-range", 4, DZ % ("atomNumbers 1\n      atomNumbersRange abc", "0.25"), False,
+     "`atomNumbersRange abc` is accepted (ignored)"),
+    ("strict:vector1d:missing-parenthesis", 4, DP % "(0.1, 0.2, 0.3, 0.4", False, "`centers (0.1, 0.2, 0.3, 0.4` without the closing parenthesis is accepted"),
+    ("crash:colvar::groupcoordnum::init", 4, GC % "indexGroup nosuch", False, "groupCoord with an undefined index group"),
+]
+
+
 def dyad_positions(r, natoms):
     return ["pos %d %s %s %s" % (i + 1, V.hexf(V.dyadic(r, -3, 3) + i), V.hexf(V.dyadic(r, -3, 3)), V.hexf(V.dyadic(r, -3, 3) - i))
             for i in range(natoms)]
@@ -733,6 +800,20 @@ def check(run):
         if usable == 1:
             run.sample({"module_base": name, "config": conf.decode("latin1").split("\n")[:12], "observables": base_obs.split("\n")[:6]})
     run.cov["correspondence"]["module_bases_usable"] = usable
+    # whole-module witnesses of the repaired defects
+    for sig, natoms, conf, must_accept, text in MODULE_WITNESSES:
+        pos = ["pos %d %d %d %d" % (i + 1, i, 2 * i, 3 * i + 1) for i in range(natoms)]
+        rc, o2, e2 = run_scn(unit, d, "wit", scenario(natoms, pos, conf.encode(), 1))
+        s2 = conf_status(o2)
+        run.count("witness:" + text, True)
+        run.dist("module:witness")
+        rp = {"kind": "module", "natoms": natoms, "positions": pos, "config": conf}
+        if rc < 0 or rc == 124 or s2 is None:
+            run.violation(sig if sig.startswith("crash") else "crash:module", "the parser %s on: %s" % ("timed out" if rc == 124 else "crashed (rc=%d)" % rc, text), rp)
+        elif must_accept and s2 != "ok":
+            run.mismatch("module:reference-configuration", {"config": conf}, s2, "ok")
+        elif not must_accept and s2 == "ok":
+            run.violation(sig, text, rp)
     # non-nested braces and other whole-string cases that must be refused by the module
     for txt in [b"}{\n", b"colvar }\n  name x\n{\n", b"}\ncolvar {\n name x\n", b"colvar {\n name x\n}\n}{\n", b"{\n}\n", b"{}\n"]:
         rc, o2, e2 = run_scn(unit, d, "nest", scenario(1, ["pos 1 0 0 0"], txt, 0))
